@@ -62,6 +62,10 @@ var c13Roles = []c13Role{
 	{"restpath", 1, func(s string, v int) (string, map[string]string) {
 		return fmt.Sprintf("SecRule REQUEST_FILENAME \"@restpath /%s/{id}\" \"id:6,phase:1,deny,status:406\"\n", s), nil
 	}},
+	{"restplain", 1, func(s string, v int) (string, map[string]string) {
+		// a template without slash and placeholder expands to itself: the same key text as the regex roles
+		return fmt.Sprintf("SecRule REQUEST_BASENAME \"@restpath %s\" \"id:14,phase:1,deny,status:414\"\n", s), nil
+	}},
 	{"nid", 1, func(s string, v int) (string, map[string]string) {
 		return fmt.Sprintf("SecRule ARGS \"@validateNid cl %s\" \"id:7,phase:1,deny,status:407\"\n", s), nil
 	}},
